@@ -42,7 +42,7 @@ POOL = [
     ("builtin", "(+)"), ("closure", "(\\x -> x)"), ("type", "int"), ("instance", "Foo(1, [2])"),
 ]
 RISKY = {"i64max", "i64min", "bigint", "inf", "infstream"}
-QUICK = ["null", "int0", "intneg", "int2", "bigrep2", "i64max", "rational", "nan", "str", "uchar", "emptylist", "list", "dict", "vector", "badutf8",
+QUICK = ["null", "int0", "intneg", "int2", "bigrep2", "i64max", "i64min", "rational", "nan", "str", "uchar", "emptylist", "list", "dict", "vector", "badutf8",
          "stream", "infstream", "closure"]
 SUB3 = ["null", "int0", "intneg", "int2", "float", "str", "uchar", "emptylist", "list", "dict", "stream", "closure", "i64min"]
 SUB3_QUICK = ["int0", "intneg", "str", "list", "closure", "null"]
